@@ -200,7 +200,7 @@ def enumeration_job(oc, jb, repo, seed, tier, stats):
       "evaluations = attempts validated; traces = images (segments) with no forbidden outcome; "
       "distinct_nontrivial = distinct (family, kind, path, mode, position[, build]) attempts that were NOT a plain early Throw at the first size check, "
       "i.e. everything except a prefix of fewer than 8 bytes (the length every reader asks for first) that throws",
-      ["instrumentation (guard region after the supplied bytes, tracking operator new/delete with canaries and a 256 MiB cap, 2 s CPU timer, fork) is "
+      ["instrumentation (guard region after the supplied bytes, tracking operator new/delete with canaries and a 256 MiB cap, 10 s CPU timer, fork) is "
        "only the source of outcome events; which outcomes are allowed is decided by spec/Reader.tla",
        "an access past the supplied bytes is observed when it lands in the 64 MiB PROT_NONE region that follows them (or, thorough tier, by ASan); a wild "
        "read of mapped memory elsewhere is not observable without ASan",
